@@ -56,6 +56,8 @@ def run(ctx, chk):
     chk.rule("T4", "the dispatch gate agrees with the registration predicate; the eventfd is consumed only when the gate is true")
     chk.rule("T5", "ring registration is level-triggered (EventSet::IN only)")
     run_on(fb, chk)
+    from . import xlist
+    xlist.apply("C11", fb, chk)
     n = lambda r: len([i for i in chk.instances if i[0] == r])
     chk.floor("T1", n("T1"), 8)
     chk.floor("T2", n("T2"), 6)
